@@ -32,6 +32,9 @@ def pStage : P (Option Stage) := do
   | "chanAdd" => do let k ← P.nat; let l ← P.nat; pure (some (Stage.pure (StageFn.chanAdd k l).eval))
   | "gray" => pure (some (Stage.pure (StageFn.gray).eval))
   | "negkey" => pure (some (Stage.pure (StageFn.negKey).eval))
+  | "hsv" => do
+    let a1 ← P.rat; let a2 ← P.rat; let a3 ← P.rat; let a4 ← P.rat
+    pure (some (Stage.pure (StageFn.hsv a1 a2 a3 a4).eval))
   | "affine" => do let a ← P.rat; let b ← P.rat; pure (some (Stage.pure (StageFn.affine a b).eval))
   | "clip" => do let lo ← P.rat; let hi ← P.opt P.rat; pure (some (Stage.pure (StageFn.clip lo hi).eval))
   | _ => failure
